@@ -27,7 +27,10 @@ RULE = (
     "log-std -2|0|1 (+ per-dimension jitter), squash on/off, bounds, mask kind none|random|all-but-one, weight scale, "
     "batch/rollout shape, seed). actor: forwards + re-evaluation of a stored action after a parameter change and a "
     "fresh sample; ppo/ippo: real get_action rollout, then the real learn() with the stored lists (monitors see the "
-    "tensors learn passes to action_log_prob/evaluate_actions). non-trivial = at least one returned-action log-prob "
+    "tensors learn passes to action_log_prob/evaluate_actions); hist: the same batteries on an actor after 1-3 "
+    "network-level operations applied as Mutations.architecture_mutate applies them (clone, then add/remove_latent_node "
+    "incl. bound-stopped, head_net.*/encoder.* node and layer methods on the clone; plain clone()), and on a PPO agent "
+    "after the real Mutations.mutation with architecture probability 1 (free choice or a fed method name). non-trivial = at least one returned-action log-prob "
     "row AND one re-evaluated stored-action row were compared with the float64 reference; distinct = distinct case "
     "descriptions"
 )
@@ -50,6 +53,11 @@ ASSUMPTIONS = [
     "masks are numpy int8 arrays, object arrays of per-env arrays or bool tensors (IPPO: nested lists in the info dict)",
     "PPO/IPPO constructors require action_std_init >= 0, so log-std -2 is set on the parameter after construction there",
     "tolerance 1e-4*(1+|ref|) for log-prob and entropy (float32 code vs float64 reference)",
+    "whether squashing is enabled is taken from the configuration the policy was constructed with (case description), "
+    "not from the flag of the current distribution head: mutations and clones rebuild the head",
+    "history cases: a log_std that an operation resets is not a C16 matter (the oracle reads the current parameter); it "
+    "is only counted as information; forced PPO mutations feed the method name through the module attribute "
+    "agilerl.hpo.mutation.get_architecture_mut_method, everything else is done by Mutations itself",
 ]
 REQUIRED_COUNTERS = [
     "support_rows",
@@ -61,11 +69,25 @@ REQUIRED_COUNTERS = [
     "reeval_calls[PPO.learn]",
     "reeval_calls[IPPO.learn]",
     "agent_boundary_rows",
+    "post_op_forward_rows",
+    "post_op_reeval_rows",
+    "hist_latent_ops_effective",
+    "hist_latent_ops_bound_stopped",
+    "hist_ppo_mutations",
 ]
 CASE_TIMEOUT_S = 600
 
 LOG2PI = math.log(2.0 * math.pi)
-_STATE = {"rec": None, "ctx": "idle", "installed": False, "last_fwd": {}, "last_actor_fwd": {}, "last_alp": None}
+_STATE = {
+    "rec": None,
+    "ctx": "idle",
+    "installed": False,
+    "last_fwd": {},
+    "last_actor_fwd": {},
+    "last_alp": None,
+    "cfg_squash": None,  # squashing as configured for the case (the statement's "when it is enabled")
+    "after_op": None,  # name of the latest network-level operation applied in this case (history cases)
+}
 
 
 def preload():
@@ -75,6 +97,7 @@ def preload():
     import agilerl.networks.distributions  # noqa
     import agilerl.algorithms.ppo  # noqa
     import agilerl.algorithms.ippo  # noqa
+    import agilerl.hpo.mutation  # noqa
     from vf.core import quiet_torch
 
     quiet_torch()
@@ -260,8 +283,14 @@ def _monitor_error(rec, exc, where):
     rec.extra.setdefault("monitor_errors", []).append(f"{where}: {type(exc).__name__}: {exc}"[:300])
 
 
-def _site():
+def _ctx():
     return _STATE["ctx"]
+
+
+def _site():
+    """Witness site: entry point, plus the network-level operation the policy went through before (if any)."""
+    op = _STATE["after_op"]
+    return _STATE["ctx"] if not op else f'{_STATE["ctx"]}@after:{op}'
 
 
 def _unit_coords(head, actor_low_high, action64):
@@ -283,7 +312,19 @@ def _observe_dist_forward(rec, head, cap, action_mask, out):
     logits = _np64(cap[0]).reshape(-1, nlog)
     B = logits.shape[0]
     mask = _mask_to_np(action_mask, (B, nlog))
-    squash = bool(head.squash_output)
+    # squashing is a property of the policy's configuration, not of whatever flag the (possibly rebuilt) head carries
+    cfg = _STATE["cfg_squash"]
+    squash = bool(head.squash_output) if cfg is None else bool(cfg and kind == "box")
+    if kind == "box":
+        rec.hit("squash_config_checks")
+        if bool(head.squash_output) != squash:
+            rec.violate(
+                "squash_config",
+                "distribution_head_does_not_carry_the_configured_squashing",
+                site,
+                configured=squash,
+                head_flag=bool(head.squash_output),
+            )
     log_std = _np64(head.log_std).reshape(-1) if kind == "box" else None
     act = _np64(action).reshape(B, -1) if action.numel() == B * ncomp else None
     record = {
@@ -306,8 +347,11 @@ def _observe_dist_forward(rec, head, cap, action_mask, out):
         return
     ref = reference(kind, splits, logits, mask, log_std, act, squash)
     rec.hit("support_rows", B)
-    rec.hit(f"forward_calls[{site}]")
+    rec.hit(f"forward_calls[{_ctx()}]")
     rec.hit(f"forward_rows[{kind}{'+squash' if squash else ''}]", B)
+    if _STATE["after_op"]:
+        rec.hit("post_op_forward_rows", B)
+        rec.hit(f"post_op_forward_rows[{kind}{'+squash' if squash else ''}]", B)
     for pk, row, val in ref["problems"]:
         rec.violate("support", pk, site, row=row, value=val, space=repr(head.action_space), action=act[row])
     if ref["skipped"]:
@@ -396,6 +440,8 @@ def _observe_actor_forward(rec, actor, obs, out):
     B = inner["B"]
     a = _np64(action).reshape(B, -1)
     rec.hit("actor_forward_checks")
+    if inner["kind"] == "box" and bool(actor.squash_output) != inner["squash"]:
+        rec.violate("squash_config", "actor_does_not_carry_the_configured_squashing", site, configured=inner["squash"])
     if inner["kind"] == "box" and inner["squash"]:
         lo, hi = _np64(actor.action_low).reshape(-1), _np64(actor.action_high).reshape(-1)
         if (a < lo[None, :] - 1e-5).any() or (a > hi[None, :] + 1e-5).any():
@@ -431,7 +477,7 @@ def _observe_action_log_prob(rec, actor, action, out):
     kind, splits, B, ncomp, squash = inner["kind"], inner["splits"], inner["B"], inner["ncomp"], inner["squash"]
     # the policy is the one of the latest forward; log_std is read now (parameters unchanged since that forward)
     log_std = _np64(head.log_std).reshape(-1) if kind == "box" else None
-    rec.hit(f"reeval_calls[{site}]")
+    rec.hit(f"reeval_calls[{_ctx()}]")
     rec.hit(f"reeval_calls[{kind}{'+squash' if squash else ''}]")
     got = _np64(out)
     if action.numel() != B * ncomp:
@@ -455,6 +501,8 @@ def _observe_action_log_prob(rec, actor, action, out):
         )
         return
     rec.hit("reeval_rows", int(ok.sum()))
+    if _STATE["after_op"]:
+        rec.hit("post_op_reeval_rows", int(ok.sum()))
     bad = ok & ~(np.abs(got - ref["lp"]) <= ref["tol"])
     if not bad.any():
         return
@@ -634,6 +682,39 @@ CORNER_SPACES = [
 ]
 
 
+LATENT_OPS = ("add_latent_node", "remove_latent_node")
+HIST_OTHER_OPS = (
+    "clone",
+    "head_net.add_node",
+    "head_net.remove_node",
+    "head_net.add_layer",
+    "head_net.remove_layer",
+    "encoder.add_node",
+    "encoder.remove_node",
+)
+HIST_FAMILIES = [
+    {"space": {"kind": "box", "dim": 2, "low": -1.0, "high": 1.0}, "squash": True},
+    {"space": {"kind": "box", "dim": 3, "low": -2.0, "high": 3.0}, "squash": True},
+    {"space": {"kind": "box", "dim": 1, "low": -1.0, "high": 1.0}, "squash": False},
+    {"space": {"kind": "box", "dim": 3, "low": -2.0, "high": 3.0}, "squash": False},
+    {"space": {"kind": "disc", "n": 4}, "squash": False},
+    {"space": {"kind": "md", "nvec": [2, 3]}, "squash": False},
+    {"space": {"kind": "mb", "n": 3}, "squash": False},
+]
+HIST_ACTOR_CORNER_OPS = [
+    ["add_latent_node"],
+    ["remove_latent_node"],
+    ["remove_latent_node", "remove_latent_node"],  # 16 -> 8 -> stopped by min_latent_dim
+    ["add_latent_node", "add_latent_node", "add_latent_node"],  # runs into max_latent_dim
+    ["clone"],
+    ["head_net.add_node"],
+    ["encoder.add_node"],
+    ["head_net.add_layer"],
+    ["add_latent_node", "clone"],
+    ["encoder.remove_node", "remove_latent_node"],
+]
+
+
 def _case(entry, space, rng, **kw):
     c = {
         "entry": entry,
@@ -661,8 +742,15 @@ def _case(entry, space, rng, **kw):
 def cases(tier, seed):
     rng = np.random.default_rng(1600 + seed)
     quick = tier == "quick"
-    n_actor, n_ppo, n_ippo = (1500, 500, 200) if quick else (40000, 12000, 5000)
+    n_actor, n_ppo, n_ippo = (900, 500, 200) if quick else (30000, 12000, 5000)
+    n_hist_actor, n_hist_ppo = (260, 90) if quick else (8000, 2500)
     out = []
+    # policies after network-level operations: every family x every operation kind first
+    for fam in HIST_FAMILIES:
+        for ops in HIST_ACTOR_CORNER_OPS:
+            out.append(_case("hist", fam["space"], rng, level="actor", ops=list(ops), squash=fam["squash"], jitter=True))
+        for ops in (["mutation:add_latent_node"], ["mutation:remove_latent_node"], ["mutation"]):
+            out.append(_case("hist", fam["space"], rng, level="ppo", ops=list(ops), squash=fam["squash"], jitter=True, T=2))
     # hostile corners first: every corner space on every entry point, squash on and off, both mask corners
     for sp in CORNER_SPACES:
         for entry in ("actor", "ppo", "ippo"):
@@ -684,6 +772,21 @@ def cases(tier, seed):
         out.append(_case("ppo", _rand_space(rng), rng))
     for _ in range(n_ippo):
         out.append(_case("ippo", _rand_space(rng), rng, squash=False))
+    for _ in range(n_hist_actor):
+        sp = _rand_space(rng)
+        ops = []
+        for _k in range(int(rng.integers(1, 4))):
+            ops.append(
+                LATENT_OPS[int(rng.integers(2))] if rng.random() < 0.5 else HIST_OTHER_OPS[int(rng.integers(len(HIST_OTHER_OPS)))]
+            )
+        out.append(_case("hist", sp, rng, level="actor", ops=ops, squash=bool(sp["kind"] == "box" and rng.random() < 0.6)))
+    for _ in range(n_hist_ppo):
+        sp = _rand_space(rng)
+        r = rng.random()
+        ops = ["mutation"] if r < 0.4 else ["mutation:" + LATENT_OPS[int(rng.integers(2))]]
+        if rng.random() < 0.3:
+            ops.append("mutation")
+        out.append(_case("hist", sp, rng, level="ppo", ops=ops, squash=bool(sp["kind"] == "box" and rng.random() < 0.6), T=2))
     return out
 
 
@@ -789,13 +892,20 @@ def _run_actor(case, rec):
         latent_dim=8,
     )
     _randomise(actor, case, gen)
+    _actor_battery(actor, case, space, gen, rng)
+
+
+def _actor_battery(actor, case, space, gen, rng, forwards=3):
+    """Forwards (support, log-prob, entropy, masks) and re-evaluation of a stored action on one actor."""
+    import torch
+
     B = case["B"]
     obs = torch.randn(B, OBS_DIM, generator=gen) * 2.0
     mask = _mk_mask(case, space, B, rng)
     _STATE["ctx"] = "actor"
     stored = None
     with torch.no_grad():
-        for k in range(3):
+        for k in range(forwards):
             a, lp, ent = actor(obs, _mask_as(case, mask))
             if stored is None:
                 stored = a.clone()
@@ -864,6 +974,14 @@ def _run_ppo(case, rec):
         share_encoders=case["share"],
     )
     _randomise(agent.actor, case, gen)
+    _ppo_battery(agent, case, rec, space, gen, rng)
+
+
+def _ppo_battery(agent, case, rec, space, gen, rng):
+    """Real get_action rollout (+ evaluation mode), direct evaluate_actions and the real learn() on one PPO agent."""
+    import torch
+
+    kind, nlog, ncomp, splits = _space_info(space)
     E, T, vect = case["E"], case["T"], case["vect"]
     agent.set_training_mode(True)
     S, A, L, R, D, V = [], [], [], [], [], []
@@ -924,6 +1042,120 @@ def _run_ppo(case, rec):
         if isinstance(e, CaseTimeout):
             raise
         rec.crash(e, "reeval_crash", "PPO.learn", dist=kind, ncomp=ncomp)
+
+
+# ------------------------------------------------------------------ policies after network-level operations
+HIST_LATENT = {"latent_dim": 16, "min_latent_dim": 8, "max_latent_dim": 32}
+
+
+def _note_op(rec, op, before, after):
+    """Bookkeeping for one applied operation (informational; verdicts come from the batteries that follow)."""
+    import torch
+
+    rec.hit(f"hist_ops[{op}]")
+    if op in LATENT_OPS:
+        rec.hit("hist_latent_ops_effective" if after.latent_dim != before.latent_dim else "hist_latent_ops_bound_stopped")
+    a, b = getattr(before.head_net, "log_std", None), getattr(after.head_net, "log_std", None)
+    if a is not None and b is not None and not torch.equal(a.detach(), b.detach()):
+        rec.hit("log_std_changed_by_operation(info)")
+    hist = _STATE["after_op"]
+    _STATE["after_op"] = op if not hist else f"{hist}>{op}"
+
+
+def _run_hist_actor(case, rec):
+    import torch
+    from gymnasium import spaces
+    from agilerl.networks.actors import StochasticActor
+
+    gen = torch.Generator().manual_seed(case["seed"])
+    rng = np.random.default_rng(case["seed"])
+    space = _mk_space(case["space"])
+    obs_space = spaces.Box(-1, 1, (OBS_DIM,), dtype=np.float32)
+    actor = StochasticActor(
+        obs_space,
+        space,
+        encoder_config={"hidden_size": [8]},
+        head_config={"hidden_size": [8]},
+        action_std_init=case["logstd"],
+        squash_output=case["squash"],
+        **HIST_LATENT,
+    )
+    _randomise(actor, case, gen)
+    for op in case["ops"]:
+        _STATE["ctx"] = "actor.mutate"
+        # the way Mutations.architecture_mutate does it: clone the network, then call the method on the clone
+        new = actor.clone()
+        if op != "clone":
+            if op not in new.mutation_methods:
+                rec.hit("hist_op_not_offered_by_network(info)")
+                continue
+            getattr(new, op)()
+        _note_op(rec, op, actor, new)
+        actor = new
+        _actor_battery(actor, case, space, gen, rng, forwards=2)
+
+
+class _FeedMethod:
+    """Module-attribute interposition: Mutations.architecture_mutate asks get_architecture_mut_method which method to
+    apply; feed it a name (must be one the policy offers) and leave everything else to the real code."""
+
+    def __init__(self, name):
+        self.name = name
+
+    def __enter__(self):
+        import agilerl.hpo.mutation as M
+
+        self.M, self.orig = M, M.get_architecture_mut_method
+        if self.name is not None:
+            name, orig = self.name, self.orig
+
+            def fed(eval_, new_layer_prob, rng):
+                net = eval_[0] if isinstance(eval_, list) else eval_
+                return name if name in net.mutation_methods else orig(eval_, new_layer_prob, rng)
+
+            M.get_architecture_mut_method = fed
+        return self
+
+    def __exit__(self, *exc):
+        self.M.get_architecture_mut_method = self.orig
+        return False
+
+
+def _run_hist_ppo(case, rec):
+    import torch
+    from gymnasium import spaces
+    from agilerl.algorithms.ppo import PPO
+    from agilerl.hpo.mutation import Mutations
+
+    gen = torch.Generator().manual_seed(case["seed"])
+    rng = np.random.default_rng(case["seed"])
+    space = _mk_space(case["space"])
+    obs_space = spaces.Box(-1, 1, (OBS_DIM,), dtype=np.float32)
+    _STATE["ctx"] = "PPO.construct"
+    nc = _net_config(case["squash"])
+    nc.update(HIST_LATENT)
+    agent = PPO(
+        obs_space,
+        space,
+        net_config=nc,
+        batch_size=case["mb"],
+        update_epochs=1,
+        lr=1e-3,
+        action_std_init=max(0.0, case["logstd"]),
+        share_encoders=case["share"],
+    )
+    _randomise(agent.actor, case, gen)
+    muts = Mutations(
+        no_mutation=0, architecture=1, new_layer_prob=0.3, parameters=0, activation=0, rl_hp=0, rand_seed=case["seed"] % (1 << 31)
+    )
+    for op in case["ops"]:
+        _STATE["ctx"] = "Mutations.mutation"
+        before = agent.actor
+        with _FeedMethod(op.split(":", 1)[1] if ":" in op else None):
+            agent = muts.mutation([agent])[0]
+        rec.hit("hist_ppo_mutations")
+        _note_op(rec, str(agent.mut), before, agent.actor)
+        _ppo_battery(agent, case, rec, space, gen, rng)
 
 
 AGENT_IDS = ["agent_0", "agent_1", "other_0"]
@@ -1055,8 +1287,12 @@ def run_case(case):
     _STATE["last_fwd"].clear()
     _STATE["last_actor_fwd"].clear()
     _STATE["last_alp"] = None
+    _STATE["cfg_squash"] = bool(case.get("squash"))
+    _STATE["after_op"] = None
     try:
-        if case["entry"] == "actor":
+        if case["entry"] == "hist":
+            (_run_hist_actor if case["level"] == "actor" else _run_hist_ppo)(case, rec)
+        elif case["entry"] == "actor":
             _run_actor(case, rec)
         elif case["entry"] == "ppo":
             _run_ppo(case, rec)
@@ -1071,6 +1307,8 @@ def run_case(case):
     finally:
         _STATE["rec"] = None
         _STATE["ctx"] = "idle"
+        _STATE["cfg_squash"] = None
+        _STATE["after_op"] = None
     rec.nontrivial = rec.counters.get("forward_logprob_rows", 0) > 0 and rec.counters.get("reeval_rows", 0) > 0
     return rec.result()
 
